@@ -71,6 +71,7 @@ type pathState struct {
 	roots      []Value
 	hashes     []*hashApp
 	hstates    map[*Value]*hashState
+	proveMemo  map[int]bool
 	uniq       int
 	facts      factTab
 	binds      *bindTab
